@@ -228,7 +228,8 @@ func runC06(e *env) {
 	e.m.Rule = "corpus + seeded synthesised source sets (one analysed file; types spread over the root package, a sub-package and the standard library; GOPATH-style and plain roots): the generated Dart files are parsed into imports, defined names, used names, classes (implements, constructor arguments), " +
 		"union dispatch tables and enum tables; one evaluation = one module: tables compared with the model, links resolved file by file; non-trivial = at least 2 generated files besides predefined.dart or at least one union"
 	e.m.Extra = map[string]interface{}{"mismatch_means": "model",
-		"assumptions": []string{"generated Dart is never executed nor analysed by a Dart SDK (none available): DartSem is the reading of the emitted routines written in Coq"}}
+		"assumptions": []string{"generated Dart is never executed nor analysed by a Dart SDK (none available): DartSem is the reading of the emitted routines written in Coq",
+			"the closure theorem C06_traversal_output_is_linked is about Model/DartGen.v; it is tied to generator/dart by comparing, for every output file, the declaration identifiers in order and the import block with the lists the real generator hands to WriteDeclarations, and by requiring every name the real text uses to be provided by a declaration the model refers to from that file (regex reader of the Dart text: trusted); the unions a class implements are outside the theorem"}}
 	specs := append(corpusDart(), corpusUnions()...)
 	specs = append(specs, repoFixtures("repo-testsource-defs", "repo-testsource-other")...)
 	n := 12
